@@ -1160,4 +1160,12 @@ def main():
 
 
 if __name__ == '__main__':
-    main()
+    try:
+        main()
+    except SystemExit:
+        raise
+    except BaseException as ex:      # an internal error of the machinery is never an alarm
+        import traceback
+        traceback.print_exc()
+        print('INCONCLUSIVE: internal error of the check machinery (%s): undecided' % type(ex).__name__)
+        sys.exit(2)
